@@ -161,13 +161,13 @@ def configs(tier: str) -> List[Cfg]:
     classes = dw.start_classes("quick")
     if tier == "quick":
         stats_list = [(), ("a", "ab")]
-        packs = ["base", "ver:a,b", "ver:e,a", "verfirst:a,ab", "norm+sym", "inf2", "rfac", "sfac"]
+        packs = ["base", "ver:a,b", "ver:e,a", "verfirst:a,ab", "norm+sym", "inf2", "rfac", "rfac2", "sfac", "oneway+inf1", "onewayexp+inf1", "oneway+inf1+sym"]
         opts = [{}]
     else:
         stats_list = [(), ("a",), ("a", "ab")]
         packs = ["base", "ver:a,b", "ver:e,a", "ver:e", "ver:b,ab", "verfirst:a,ab", "verfirst:e", "norm+sym", "sym", "inf1",
                  "inf2", "inf2r", "rfac", "sfac", "two", "noinit", "dropempty", "ver:a,b+sym", "ver:a+inf2", "ver:a,b+rfac",
-                 "base+iter", "inf1+iter", "ver:a,b+iter"]
+                 "base+iter", "inf1+iter", "ver:a,b+iter", "rfac2", "oneway", "oneway+inf1", "onewayexp+inf1", "oneway+inf1+sym", "oneway+inf2", "oneway+inf1+iter"]
         opts = [{}, {"expand_verified": True}]
         classes = classes + [c for c in dw.start_classes("thorough") if c not in classes][:60]
     res = []
